@@ -232,7 +232,7 @@ def c02(tier, seed):
                  "overhead), stateful and stateless, mixed-direction transport traffic; TLC checks Completes, Agreement, "
                  "Delivery, RawSplitAgrees on every state", ASSUME_SYMBOLIC)
     d = [d2("C02", "honest", 400 if tier == "quick" else 13344, seed, all_names=(tier != "quick")),
-         d2("C02", "honest", 80 if tier == "quick" else 25272, seed, all_names=(tier != "quick"), hfs=True)]
+         d2("C02", "honest", 80 if tier == "quick" else 4000, seed, hfs=True)]
     if tier != "quick":
         d.append(d2("C02", "long", 300, seed))
     return add_d2(res, d)
